@@ -72,20 +72,21 @@ type problem struct {
 }
 
 type muxObs struct {
-	w           *muxWorld
-	indexReq    *httpResp
-	contentSeen bool
-	contentAt   int
-	multi       []*multiSnap
-	streams     []*streamObs
-	objects     map[string]*mediaObj
-	order       []*mediaObj // in first-listed order
-	problems    []problem
-	refetchAll  bool
-	checkDelta  bool
-	changeCtr   int
-	fetches     int
-	query       string // query string appended to playlist requests ("" or "k=v")
+	w                  *muxWorld
+	firstIndexCompared bool
+	indexReq           *httpResp
+	contentSeen        bool
+	contentAt          int
+	multi              []*multiSnap
+	streams            []*streamObs
+	objects            map[string]*mediaObj
+	order              []*mediaObj // in first-listed order
+	problems           []problem
+	refetchAll         bool
+	checkDelta         bool
+	changeCtr          int
+	fetches            int
+	query              string // query string appended to playlist requests ("" or "k=v")
 }
 
 func newMuxObs(w *muxWorld) *muxObs {
@@ -151,6 +152,16 @@ func (o *muxObs) observe() {
 	if idx.effStatus() != 200 || idx.ctype() != "application/vnd.apple.mpegurl" {
 		o.problem("fetch", "index", "multivariant playlist: status %d content type %q", idx.effStatus(), idx.ctype())
 		return
+	}
+	// the request that was waiting for the first content is answered at the same rest point: it describes the same
+	// state as a request issued now
+	if o.indexReq != nil && !o.firstIndexCompared {
+		o.firstIndexCompared = true
+		if o.query == "" && !bytes.Equal(o.indexReq.body, idx.body) {
+			o.problem("index", "blocked-request-stale", "the multivariant request that waited for the first content was answered with\n%s\nwhile a request issued at the same moment gets\n%s", o.indexReq.body, idx.body)
+			return
+		}
+		o.w.r.Probe("first-index-compared")
 	}
 	if len(o.multi) == 0 || !bytes.Equal(o.multi[len(o.multi)-1].raw, idx.body) {
 		mp, err := parseMultivariant(idx.body)
